@@ -417,8 +417,9 @@ func (R *Run) checkSplit(sf *ssa.Function, construct string) {
 	})
 	// returns: token nil ⇒ (0, nil, nil) unless an error is returned
 	nTok := 0
-	for _, ret := range returnsOf(sf) {
-		adv, tok, errv := retValue(ret, 0), retValue(ret, 1), retValue(ret, 2)
+	for _, rt := range returnTuples(sf) {
+		ret := rt.ret
+		adv, tok, errv := rt.vals[0], rt.vals[1], rt.vals[2]
 		if isNilConst(tok) {
 			if a, ok := constInt(adv); (!ok || a != 0) && isNilConst(errv) {
 				problems = append(problems, "a 'need more data' return advances the input at "+P.ipos(ret))
@@ -592,4 +593,48 @@ func fixedWireSize(t types.Type) int64 {
 		return n
 	}
 	return -1
+}
+
+
+// returnTuples lists what a function can return as tuples of values that belong together: a return whose results
+// are phis of its own block (the shape a function with several return statements takes once its body was expanded
+// in place, or when it collects its results in variables) is split into one tuple per incoming edge.
+type retTuple struct {
+	ret  *ssa.Return
+	vals []ssa.Value
+}
+
+func returnTuples(fn *ssa.Function) []retTuple {
+	var out []retTuple
+	var expand func(ret *ssa.Return, vals []ssa.Value, blk *ssa.BasicBlock, depth int)
+	expand = func(ret *ssa.Return, vals []ssa.Value, blk *ssa.BasicBlock, depth int) {
+		split := false
+		for _, v := range vals {
+			if phi, ok := v.(*ssa.Phi); ok && phi.Block() == blk {
+				split = true
+			}
+		}
+		if !split || depth > 3 {
+			out = append(out, retTuple{ret, vals})
+			return
+		}
+		for i, pred := range blk.Preds {
+			nv := make([]ssa.Value, len(vals))
+			for k, v := range vals {
+				nv[k] = v
+				if phi, ok := v.(*ssa.Phi); ok && phi.Block() == blk {
+					nv[k] = phi.Edges[i]
+				}
+			}
+			expand(ret, nv, pred, depth+1)
+		}
+	}
+	for _, ret := range returnsOf(fn) {
+		vals := make([]ssa.Value, len(ret.Results))
+		for i := range ret.Results {
+			vals[i] = retValue(ret, i)
+		}
+		expand(ret, vals, ret.Block(), 0)
+	}
+	return out
 }
